@@ -47,26 +47,14 @@ def vec_adds(b, local):
     return out
 
 
-def run(ctx):
-    C = Check('C09', ctx['tier'], 'other', ctx['seed'])
-    P = Program(ctx['facts'])
-    C.rule('C09-DEV-bonly', 'every addition to the list of elements to import from the new file (elements_b_only) is only reachable over the false edge of "already paired with a model element" (elements_merge.iter().any(..)): an element is merged or imported, never both')
-    C.rule('C09-PAIR-import', 'in import_new_items the insertion into the model parent is dominated by: attribution to the new file, re-parenting to the model parent, calc_element_insert_range with the new file\'s version whose failure leaves through InvalidFileMerge, and a position clamped into that range')
-    C.rule('C09-MUST-restrict', 'merge_element: elements only in the model get the files the parent had before (clone_into under is_empty), import_new_items and merge_sub_elements are reached on every Ok path; merge_sub_elements hands the recursion the file set WITHOUT the new file and extends a local file set only after the recursion; merge_file_data adds the new file to the root only after a successful merge')
-    C.rule('C09-MUST-reject', 'calc_identifiables_merge returns AOnly for an unmatched model element only over the true edge of `splitable`, the false edge is the InvalidFileMerge exit; `splitable` is splittable_in(min(version of the files already containing the parent, version of the new file)); load_buffer_internal propagates the merge error')
-    C.rule('C09-FLOW-progress', 'every cycle of the pairwise walk advances one of the two iterators')
-    C.assumptions = ['union / order independence of the merged content is NOT decided (run-time equality of trees built by a data-dependent positional walk)']
+def dev_bonly(C, P, RULE):
+    """an element of the new file is merged into its counterpart or imported as a new child, never both (shared with C03)"""
     me = P.get('AutosarModel::merge_element')
-    imp = P.get('AutosarModel::import_new_items')
-    msub = P.get('AutosarModel::merge_sub_elements')
-    mfd = P.get('AutosarModel::merge_file_data')
-    cim = P.get('AutosarModel::calc_identifiables_merge')
-    # ---------------- DEV-bonly ----------------
     ic = calls(me, r'AutosarModel>::import_new_items$')
     ms = calls(me, r'AutosarModel>::merge_sub_elements$')
     if len(ic) != 1 or len(ms) != 1:
-        C.anchor_missing('C09-DEV-bonly', 'import_new_items / merge_sub_elements calls in merge_element')
-        return C.finish('fail closed')
+        C.anchor_missing(RULE, 'import_new_items / merge_sub_elements calls in merge_element')
+        return None
     Lb = root_local(me, me.blocks[ic[0][0]]['term']['args'][1])
     Lm = root_local(me, me.blocks[ms[0][0]]['term']['args'][0])
     adds_b = vec_adds(me, Lb)
@@ -92,9 +80,31 @@ def run(ctx):
     anys = [p for p in anys if any_over_merge(p)]
     for i, a in enumerate(sorted(adds_b)):
         ok = any(guarded_by_true(me, a, p, negate=True) for p in anys)
-        C.check(ok, 'C09-DEV-bonly', 'merge_element|import-list-add#%d|not-already-merged' % i, 'an element of the new file is queued for import without the test that it was not already paired with a model element (elements_merge.iter().any(..)): it would be merged into its counterpart AND inserted as a new child (duplicate element, two parents)',
+        C.check(ok, RULE, 'merge_element|import-list-add#%d|not-already-merged' % i, 'an element of the new file is queued for import without the test that it was not already paired with a model element (elements_merge.iter().any(..)): it would be merged into its counterpart AND inserted as a new child (duplicate element, two parents)',
                 me.where(a), sample={'fn': 'merge_element', 'guard': '!elements_merge.iter().any(|(_, b)| b == elem_b)'} if i == 0 else None)
-    C.floor('C09-DEV-bonly.adds', len(adds_b), 3)
+    C.floor(RULE + '.adds', len(adds_b), 3)
+    return ic, ms
+
+
+def run(ctx):
+    C = Check('C09', ctx['tier'], 'other', ctx['seed'])
+    P = Program(ctx['facts'])
+    C.rule('C09-DEV-bonly', 'every addition to the list of elements to import from the new file (elements_b_only) is only reachable over the false edge of "already paired with a model element" (elements_merge.iter().any(..)): an element is merged or imported, never both')
+    C.rule('C09-PAIR-import', 'in import_new_items the insertion into the model parent is dominated by: attribution to the new file, re-parenting to the model parent, calc_element_insert_range with the new file\'s version whose failure leaves through InvalidFileMerge, and a position clamped into that range')
+    C.rule('C09-MUST-restrict', 'merge_element: elements only in the model get the files the parent had before (clone_into under is_empty), import_new_items and merge_sub_elements are reached on every Ok path; merge_sub_elements hands the recursion the file set WITHOUT the new file and extends a local file set only after the recursion; merge_file_data adds the new file to the root only after a successful merge')
+    C.rule('C09-MUST-reject', 'calc_identifiables_merge returns AOnly for an unmatched model element only over the true edge of `splitable`, the false edge is the InvalidFileMerge exit; `splitable` is splittable_in(min(version of the files already containing the parent, version of the new file)); load_buffer_internal propagates the merge error')
+    C.rule('C09-FLOW-progress', 'every cycle of the pairwise walk advances one of the two iterators')
+    C.assumptions = ['union / order independence of the merged content is NOT decided (run-time equality of trees built by a data-dependent positional walk)']
+    me = P.get('AutosarModel::merge_element')
+    imp = P.get('AutosarModel::import_new_items')
+    msub = P.get('AutosarModel::merge_sub_elements')
+    mfd = P.get('AutosarModel::merge_file_data')
+    cim = P.get('AutosarModel::calc_identifiables_merge')
+    # ---------------- DEV-bonly ----------------
+    r = dev_bonly(C, P, 'C09-DEV-bonly')
+    if r is None:
+        return C.finish('fail closed')
+    ic, ms = r
     # ---------------- PAIR-import ----------------
     ins = [o for o in E.content_ops(imp) if o['kind'] == 'insert']
     if len(ins) != 1:
